@@ -105,7 +105,12 @@ impl Iterator for Chunks {
         for output in self.iter.clone().take(self.chunk_size) {
             match KValue::try_from(output) {
                 Ok(value) => chunk
-                    .get_or_insert_with(|| Vec::with_capacity(self.chunk_size))
+                    .get_or_insert_with(|| {
+                        // The chunk size can be huge, so the reservation is capped
+                        Vec::with_capacity(
+                            self.chunk_size.min(super::reserved_capacity(&self.iter)),
+                        )
+                    })
                     .push(value),
                 Err(error) => return Some(Output::Error(error)),
             }
@@ -1040,9 +1045,11 @@ impl Windows {
         if window_size < 1 {
             Err(WindowsError::WindowSizeMustBeAtLeastOne)
         } else {
+            // The window size can be huge, so the reservation is capped
+            let cache = VecDeque::with_capacity(window_size.min(super::reserved_capacity(&iter)));
             Ok(Self {
                 iter,
-                cache: VecDeque::with_capacity(window_size),
+                cache,
                 window_size,
             })
         }
